@@ -326,19 +326,29 @@ func (s *runSnap) coq(variant int) string {
 		input = fmt.Sprintf("(Some {| i_urn := Some %s; i_default := %s; i_attachments := %s; i_channel := %s; i_created_on := %s; i_external_id := %s; i_text := %s; i_type := %s; i_uuid := %s |})",
 			s.InputURN.coq(), def, g("attachments"), g("channel"), g("created_on"), g("external_id"), g("text"), g("type"), g("uuid"))
 	}
+	ct := optContact(s.Contact, t.get("contact"))
+	share := func(x string) string {
+		if ct != "None" && len(ct) > 40 {
+			return strings.ReplaceAll(x, ct, "ct")
+		}
+		return x
+	}
 	sess := fmt.Sprintf("{| s_channels := chans%d; s_contact := %s; s_flow_name := %s; s_input := %s; s_parent := %s; s_child := %s;\n"+
 		"   s_run_created_on := %s; s_run_exited_on := %s; s_run_flow := %s; s_run_path := %s; s_run_results := %s; s_run_status := %s; s_run_uuid := %s;\n"+
 		"   s_fields := %s; s_globals := %s; s_legacy_extra := %s; s_node := %s; s_results := %s; s_resume := %s; s_ticket := %s; s_trigger := %s; s_webhook := %s |}",
-		variant, optContact(s.Contact, t.get("contact")), coqOptStr(s.FlowName), input, s.Parent.coq(t.get("parent")), s.Child.coq(t.get("child")),
+		variant, "ct", coqOptStr(s.FlowName), input, share(s.Parent.coq(t.get("parent"))), share(s.Child.coq(t.get("child"))),
 		f("run", "created_on"), f("run", "exited_on"), f("run", "flow"), f("run", "path"), f("run", "results"), f("run", "status"), f("run", "uuid"),
 		f("fields"), f("globals"), f("legacy_extra"), f("node"), f("results"), f("resume"), f("ticket"), f("trigger"), f("webhook"))
-	return fmt.Sprintf("CCtx {| k_env := %s;\n  k_session := %s;\n  k_obs := %s;\n  k_country := %s |}",
-		coqEnv(s.Redact, s.BaseCountry), sess, xvRoot(t), coqStr(s.Country))
+	return fmt.Sprintf("let ct := %s in\n  CCtx {| k_env := %s;\n  k_session := %s;\n  k_obs := %s;\n  k_country := %s |}",
+		ct, coqEnv(s.Redact, s.BaseCountry), sess, xvRoot(t), coqStr(s.Country))
 }
 
 // ---- emitter --------------------------------------------------------------------------------------
 
-const casesPerFile = 150
+const (
+	casesPerFile = 400    // at most
+	bytesPerFile = 330000 // a context case is ~7 KB of Coq text and costs ~0.15 s of coqc
+)
 
 type emitter struct {
 	o     *hx.Opts
@@ -346,6 +356,7 @@ type emitter struct {
 	file  *hx.CoqFile
 	names []string
 	shard int
+	bytes int
 }
 
 func newEmitter(o *hx.Opts, res *hx.Result) *emitter { return &emitter{o: o, res: res} }
@@ -371,7 +382,8 @@ func (e *emitter) add(term string, input any, impl any) {
 	e.file.Add(fmt.Sprintf("Definition %s : case := %s.", nm, term))
 	e.res.Cases = append(e.res.Cases, hx.Case{File: e.file.Name, Index: len(e.names), Input: input, Impl: impl})
 	e.names = append(e.names, nm)
-	if len(e.names) >= casesPerFile {
+	e.bytes += len(term)
+	if len(e.names) >= casesPerFile || e.bytes >= bytesPerFile {
 		e.flush()
 	}
 }
@@ -384,6 +396,7 @@ func (e *emitter) flush() {
 	e.file.Add("Definition M := Eval vm_compute in mismatches cases.\nPrint M.")
 	e.file.Save(e.o, e.res)
 	e.file = nil
+	e.bytes = 0
 	e.shard++
 }
 
